@@ -35,6 +35,7 @@ var pkgAlias = map[string]string{
 	"blk":              modPath + "/sstable/block",
 	"sst":              modPath + "/sstable",
 	"blob":             modPath + "/sstable/blob",
+	"valblk":           modPath + "/sstable/valblk",
 	"compact":          modPath + "/internal/compact",
 	"brepr":            modPath + "/batchrepr",
 	"rangekey":         modPath + "/internal/rangekey",
@@ -55,6 +56,7 @@ type Program struct {
 	ByPath   map[string]*packages.Package // root packages by import path
 	SSA      *ssa.Program
 	SSAPkgs  map[string]*ssa.Package
+	cidx     *callIdx
 	AllFuncs []*ssa.Function // every function with a body in the root packages (incl. closures, instantiations)
 	byName   map[string]*ssa.Function
 	LoadS    float64
